@@ -339,7 +339,7 @@ fn wire_for(s: Sel, key: [u8; 40], pre: &[u8], size: u32, opcode: u32) -> (Vec<u
     (p, e.hdr(s.kind, size, opcode))
 }
 /// cut `bytes` into Data events in one of several styles, with interruptions
-fn fragments(rng: &mut Rng, bytes: &[u8], style: u64) -> Vec<REv> {
+pub fn fragments(rng: &mut Rng, bytes: &[u8], style: u64) -> Vec<REv> {
     let mut ev = Vec::new();
     let mut pos = 0;
     if style == 3 { ev.push(REv::Fail(0)); }
